@@ -72,6 +72,17 @@ def _swap_xy(s: str) -> str:
     return s.replace("x0", "@a").replace("y0", "x0").replace("@a", "y0").replace("x1", "@b").replace("y1", "x1").replace("@b", "y1")
 
 
+def _isany_unfiltered(model: Model, rep: Report) -> None:
+    """Two boxes are merged early only if *nothing* lies in the rectangle that spans them: the candidates are whatever the plane
+    finds there, minus the two themselves - boxes and groups alike."""
+    r = rep.rule("C09-R13", "WRITESET", "group_textboxes.isany: the set of objects in between is plane.find(<spanning box>) minus the pair itself - bound once, not narrowed by kind", 1)
+    f = model.func("pdfminer.layout.LTLayoutContainer.group_textboxes.isany")
+    asg = [n for n in walk_no_nested(f.node) if isinstance(n, (ast.Assign, ast.AugAssign)) and any(isinstance(t, ast.Name) and t.id == "objs" for t in (n.targets if isinstance(n, ast.Assign) else [n.target]))]
+    rets = [n for n in walk_no_nested(f.node) if isinstance(n, ast.Return)]
+    ok = len(asg) == 1 and isinstance(asg[0], ast.Assign) and "".join(unparse(asg[0].value).split()) == "set(plane.find((x0,y0,x1,y1)))" and len(rets) == 1 and "".join(unparse(rets[0].value).split()) == "objs.difference((obj1,obj2))"
+    r.check(ok, site(f), f.qualname, "objs = set(plane.find((x0, y0, x1, y1))); return objs.difference((obj1, obj2))", why="the candidates are re-bound or filtered: an object of the kind that is filtered out (a lone box between two groups) no longer keeps the two apart, and the column comes out in another order")
+
+
 def run(model: Model, rep: Report) -> None:
     rep.explanation = (
         "C09: the grouping predicates are extracted from layout.py, normalised (comparison direction, commutative operands) and compared with "
@@ -82,6 +93,7 @@ def run(model: Model, rep: Report) -> None:
     )
     rep.assumptions += ["multiplying a float by a power of two is exact (no overflow/underflow)", "|coordinate| < 2**31 - 1 (the INF sentinels)", "Plane.gridsize only affects bucketing; find() re-filters exactly (checked by C20)"]
     docs = model.read_text("docs/source/topic/converting_pdf_to_text.rst")
+    _isany_unfiltered(model, rep)
     # ---------------------------------------------------------------- R1
     r1 = rep.rule("C09-R1", "TABLE", "grouping predicates equal the documented definitions (strictness, min/max, operands); vertical = mirrored horizontal", 12)
     doc_ok = all(k in docs for k in ("smaller than\nthe `char_margin`", "larger than the `line_overlap`", "maximum width of either one", "minimum height of either one", "maximum width or height of the new character", "multiplied by the\nheight of the bounding box"))
